@@ -288,9 +288,10 @@ func (o *Obligation) Query(withModel bool) string {
 	fmt.Fprintf(&b, "(assert %s)\n(assert (not %s))\n(check-sat)\n", o.Reach, o.Goal)
 	if withModel {
 		var ps []string
+		body := b.String()
 		for _, n := range sortedValKeys(o.fc.params) {
 			v := o.fc.params[n]
-			if v.T != "" {
+			if v.T != "" && strings.Contains(body, "(declare-const "+v.T+" ") {
 				ps = append(ps, v.T)
 			}
 		}
